@@ -53,11 +53,11 @@ func runC07(c *ctx, r *Report) error {
 	if !c.quick {
 		n = 60000
 	}
-	r.Rule = fmt.Sprintf("%d random placements of a diagnosed construct: 9 kinds of defect inside ${{ }} (lexer, parser, semantic at the first / an inner / an argument token, with leading spaces) + object / null value evaluated in a template (reported at the `$`) + untrusted input + unexpected key + bad scalar value + bad glob character, placed in workflow / job / step / container env values (free key names of random length), step name / run / with values, flow and block style, plain / single / double quoted scalars, 0–30 characters of text and 0–3 well-formed placeholders before it in the same scalar, 0–9 comment lines and 0–3 extra jobs above; the generator computes the exact line:column of the offending token / key / value / character from what it wrote, the real linter must report exactly there; non-trivial = distinct generated sources", n)
+	r.Rule = fmt.Sprintf("%d random placements of a diagnosed construct: 9 kinds of defect inside ${{ }} (lexer, parser, semantic at the first / an inner / an argument token, with leading spaces) + object / null value evaluated in a template (reported at the `$`) + untrusted input + unexpected key + bad scalar value + bad glob character + mutually exclusive filter keys (reported at the later key; block and two-line flow layout) + needs cycle (reported at its first job; flow layout with decreasing columns), placed in workflow / job / step / container env values (free key names of random length), step name / run / with values, flow and block style, plain / single / double quoted scalars, 0–30 characters of text and 0–3 well-formed placeholders before it in the same scalar, 0–9 comment lines and 0–3 extra jobs above; the generator computes the exact line:column of the offending token / key / value / character from what it wrote, the real linter must report exactly there; non-trivial = distinct generated sources", n)
 	quoteStyles := []string{"", "'", "\""}
 	var mb batch
 	for i := 0; i < n; i++ {
-		kind := rng.Intn(15)
+		kind := rng.Intn(17)
 		var lines []string
 		k := rng.Intn(10)
 		lines = append(lines, "on: push")
@@ -72,7 +72,7 @@ func runC07(c *ctx, r *Report) error {
 		var wantLine, wantCol int
 		var wantMsg, what string
 		filler := strings.Repeat("K", rng.Intn(12))
-		if kind < 10 || kind >= 13 {
+		if kind < 10 || kind == 13 || kind == 14 {
 			// expression defect (0-8) or untrusted input (9) inside a scalar
 			var d exprDefect
 			script := false
@@ -204,6 +204,41 @@ func runC07(c *ctx, r *Report) error {
 			wantCol = len("    timeout-minutes: "+pad) + 1
 			wantMsg = "expecting a single"
 			wantMsg = ""
+		} else if kind == 15 {
+			// two keys that exclude each other: reported at the one written LATER, whatever the layout (block, or a
+			// flow mapping over two lines where the later key has the smaller column)
+			what = "filter-conflict"
+			pair := [][2]string{{"branches", "branches-ignore"}, {"tags", "tags-ignore"}, {"paths", "paths-ignore"}}[rng.Intn(3)]
+			if rng.Intn(2) == 0 {
+				pair[0], pair[1] = pair[1], pair[0]
+			}
+			pad := strings.Repeat(" ", 1+rng.Intn(12))
+			q := []string{"", "'", "\""}[rng.Intn(3)]
+			lines[0] = "on:"
+			var ins []string
+			if rng.Intn(2) == 0 {
+				ins = []string{"  push: {" + pair[0] + ": [a],", pad + q + pair[1] + q + ": [b]}"}
+				wantLine, wantCol = 3, len(pad)+1
+			} else {
+				ins = []string{"  push:", "    " + pair[0] + ": [a]", "    " + q + pair[1] + q + ": [b]"}
+				wantLine, wantCol = 4, 5
+			}
+			lines = append(lines[:1], append(ins, lines[1:]...)...)
+			wantMsg = "cannot be used"
+			lines = append(lines, "    steps:", "      - run: echo")
+		} else if kind == 16 {
+			// a needs cycle is reported at the job of the cycle that is written first, also when the jobs form a flow
+			// mapping over several lines with decreasing columns
+			what = "cycle"
+			padA := strings.Repeat(" ", 6+rng.Intn(8))
+			padB := strings.Repeat(" ", 1+rng.Intn(4))
+			lines = []string{"on: push"}
+			for x := 0; x < k; x++ {
+				lines = append(lines, "# comment")
+			}
+			lines = append(lines, "jobs: {", padA+"zeta"+filler+": {needs: [alpha], runs-on: ubuntu-latest, steps: [{run: echo}]},", padB+"alpha: {needs: [zeta"+filler+"], runs-on: ubuntu-latest, steps: [{run: echo}]}", "}")
+			wantLine, wantCol = k+3, len(padA)+1
+			wantMsg = "cyclic dependencies"
 		} else {
 			// glob: bad character inside a branch filter, in a quoted scalar of a flow sequence
 			what = "glob"
